@@ -252,6 +252,18 @@ func (ex *Exec) readPath(st *State, v Value, path []PathEl, t types.Type) Value 
 			if pe.Idx == nil {
 				panic("readPath: field on array")
 			}
+			if pe.SubN > 0 {
+				// a view of SubN bytes of a small (cell-wise) byte array, as one byte string
+				if pe.Idx.IsConstInt() && pe.Idx.I.IsInt64() {
+					k := int(pe.Idx.I.Int64())
+					if k >= 0 && k+pe.SubN <= len(cur.E) {
+						v = ex.bytesOfCells(cur.E[k : k+pe.SubN])
+						continue
+					}
+				}
+				v = ex.G.FreshBytes("cells", pe.SubN)
+				continue
+			}
 			if pe.Idx.IsConstInt() {
 				k := int(pe.Idx.I.Int64())
 				if k < 0 || k >= len(cur.E) {
@@ -343,6 +355,23 @@ func (ex *Exec) writePath(st *State, v Value, path []PathEl, nv Value, t types.T
 		return n
 	case *ArrV:
 		n := &ArrV{Elem: cur.Elem, E: append([]Value(nil), cur.E...)}
+		if pe.SubN > 0 {
+			// a byte string written over SubN cells of a small byte array
+			nt, isT := nv.(*Term)
+			if pe.Idx.IsConstInt() && pe.Idx.I.IsInt64() && isT && nt.Sort == SB && len(path) == 1 {
+				k := int(pe.Idx.I.Int64())
+				if k >= 0 && k+pe.SubN <= len(n.E) {
+					for j := 0; j < pe.SubN; j++ {
+						n.E[k+j] = ex.G.BAt(nt, IntC(int64(j)))
+					}
+					return n
+				}
+			}
+			for k := range n.E {
+				n.E[k] = ex.G.Fresh(cur.Elem, "cellstore")
+			}
+			return n
+		}
 		if pe.Idx.IsConstInt() {
 			k := int(pe.Idx.I.Int64())
 			if k >= 0 && k < len(n.E) {
@@ -821,4 +850,53 @@ func (ex *Exec) step(st *State) {
 		}
 	}()
 	ex.execInstr(st, fr, ins)
+}
+
+// bytesOfCells renders consecutive cells of a small byte array as one byte string: the string X itself when the
+// cells are exactly bat(X,0..n-1) of an n-byte X, otherwise the concatenation of one-byte strings bunit(cell).
+func (ex *Exec) bytesOfCells(cells []Value) *Term {
+	n := len(cells)
+	if n == 0 {
+		return ex.G.StrConst("")
+	}
+	var x *Term
+	same := true
+	for j, c := range cells {
+		t, ok := c.(*Term)
+		if !ok || t.Op != "app" || t.Name != "bat" || !t.Args[1].IsConstInt() || t.Args[1].I.Int64() != int64(j) || (x != nil && x != t.Args[0]) {
+			same = false
+			break
+		}
+		x = t.Args[0]
+	}
+	if same && x != nil {
+		ln := int64(-1)
+		if l := ex.G.lens[x.Key()]; l != nil && l.IsConstInt() {
+			ln = l.I.Int64()
+		}
+		if x.Op == "app" && x.Name == "le64" {
+			ln = 8
+		}
+		if x.Op == "app" && x.Name == "sha256" {
+			ln = 32
+		}
+		if ln == int64(n) {
+			return x
+		}
+	}
+	var r *Term
+	for _, c := range cells {
+		t, ok := c.(*Term)
+		if !ok || t.Sort != SInt {
+			return ex.G.FreshBytes("cells", n)
+		}
+		u := App("bunit", SB, t)
+		ex.G.lens[u.Key()] = IntC(1)
+		if r == nil {
+			r = u
+		} else {
+			r = ex.G.BCat(r, u)
+		}
+	}
+	return r
 }
